@@ -175,7 +175,7 @@ def gen_chunk(rng, tag, ptype, tlen, optional, vals, nulls, knobs):
     cuts = split_points(rng, n, knobs["split"])
     items = []
     dictionary = None
-    allow_dict = knobs["dict"] and ptype != 0
+    allow_dict = knobs["dict"]      # BOOLEAN included: dictionary pages with index width 0 / 1 (or wider), v1 and v2
     vi = 0
     for a, b in zip(cuts[:-1], cuts[1:]):
         pn = nulls[a:b]
@@ -302,7 +302,7 @@ EXTREMES = {
 }
 
 
-def _one_column_file(leaf, vals, optional, enc, v2):
+def _one_column_file(leaf, vals, optional, enc, v2, minw=1):
     """one column, one row group; a NULL after the second value when optional"""
     nulls = ([False] * len(vals))
     if optional:
@@ -318,7 +318,7 @@ def _one_column_file(leaf, vals, optional, enc, v2):
                 dvals.append(v)
         dvals = dvals[::-1]
         ix = [dvals.index(v) for v in vals]
-        w = max(1, max(ix).bit_length())
+        w = max(minw, max(ix).bit_length())
         items.append({"dict": 0, "vals": dvals})
         store = ["dictidx", 8, w, [["r", 1, ix[0]], ["b", ix[1:]]] if len(ix) > 1 else [["r", 1, ix[0]]]]
     else:
@@ -356,7 +356,12 @@ def fixed_block():
         vals = EXTREMES[tag]
         out.append(_one_column_file(leaf, vals, False, "plain", False))
         out.append(_one_column_file(leaf, vals, True, "plain", True))
-        if ptype != 0:
-            out.append(_one_column_file(leaf, vals, True, "dict", False))
-            out.append(_one_column_file(leaf, vals, False, "dict", True))
+        out.append(_one_column_file(leaf, vals, True, "dict", False))
+        out.append(_one_column_file(leaf, vals, False, "dict", True))
+        if ptype == 0:
+            # dictionary-encoded BOOLEAN with a single entry (index width 0) and with both (width 1), with and without a NULL
+            for bv in ([1, 1, 1], [0, 0], [1, 0, 1, 1, 0, 0, 0, 1, 1]):
+                for optional in (False, True):
+                    for v2 in (False, True):
+                        out.append(_one_column_file(leaf, bv, optional, "dict", v2, minw=0))
     return out
